@@ -111,8 +111,18 @@ def run(env, rep):
             for t in p:
                 if t[0] == "mut" and t[2] in keyed_fields:
                     n_mut += 1
-                    if t[1].split("::")[-1] not in ONE_KEY:
+                    op = t[1].split("::")[-1]
+                    if op not in ONE_KEY:
                         bad_mut.append("%s calls %s on %s" % (b.name, t[1], t[2]))
+                    elif op in ("insert", "remove", "remove_entry", "get_mut", "entry") and t[3]:
+                        # ... and that key is the chunk stream id of the chunk being parsed (parsed from its basic header, or the
+                        # working header's own id), never a number taken from anywhere else - e.g. from a message body
+                        k = str(t[3][0])
+                        own = re.match("^&?\\*?" + CSID_PARSED + "$", k) or re.match("^&?\\*?" + OWN_CSID + "$", k) or \
+                            re.match(r"^&?\*?HashMap::remove\(load\(\*?load\(self\)\.previous_headers\)," + CSID_PARSED + r"\) as Some\.0\.chunk_stream_id$", k) or \
+                            re.match(r"^&?\*?load\(\w+\)$", k)       # a parameter of a helper: judged where the helper is followed in place
+                        if not own:
+                            bad_mut.append("%s calls %s on %s under the key %s, which is not the chunk stream id of the chunk being parsed" % (b.name, op, t[2], k[:80]))
                 if t[0] == "store" and t[1] in keyed_fields:
                     bad_mut.append("%s replaces %s as a whole" % (b.name, t[1]))
     if keyed_fields:
